@@ -558,7 +558,12 @@ func cmdCheck(args []string) int {
 	}
 	os.MkdirAll(filepath.Join(verifDir, "evidence"), 0o755)
 	eb, _ := json.MarshalIndent(ev, "", " ")
-	os.WriteFile(filepath.Join(verifDir, "evidence", prop+".json"), eb, 0o644)
+	if strings.HasPrefix(prop, "ST") {
+		// engine self-tests are not properties: their report stays with the scratch output
+		os.WriteFile(filepath.Join(verifDir, "out", prop, "evidence.json"), eb, 0o644)
+	} else {
+		os.WriteFile(filepath.Join(verifDir, "evidence", prop+".json"), eb, 0o644)
+	}
 
 	for _, l := range otherLines {
 		fmt.Println(l)
